@@ -172,6 +172,27 @@ func (rw *Rewriter) Visit(node sql.Node) (w sql.Visitor, n sql.Node, err error) 
 	switch n := retNode.(type) {
 	case *sql.ReturningClause:
 		rw.returning = true
+	case *sql.WithClause:
+		// sql.Walk does not descend into the bodies of common table expressions.
+		for _, cte := range n.CTEs {
+			if cte.Select == nil {
+				continue
+			}
+			sel, err := sql.Walk(rw, cte.Select)
+			if err != nil {
+				return nil, nil, err
+			}
+			cte.Select = sel.(*sql.SelectStatement)
+		}
+	case sql.SelectExpr:
+		// Nor does it descend into a SELECT used as an expression.
+		if n.SelectStatement != nil {
+			sel, err := sql.Walk(rw, n.SelectStatement)
+			if err != nil {
+				return nil, nil, err
+			}
+			retNode = sql.SelectExpr{SelectStatement: sel.(*sql.SelectStatement)}
+		}
 	case *sql.OrderingTerm:
 		// NO random() rewriting past this point.
 		rw.orderedBy = true
